@@ -217,7 +217,7 @@ fn account(st: &mut WStats, d: &RunData, prop: &str) {
     let nontrivial = if prop == "C18" { d.recs.iter().filter(|r| r.task == 1).count() >= 2 } else { ntasks >= 2 && overlapped(&d.recs) };
     if nontrivial {
         st.nontrivial_runs += 1;
-        st.nontrivial.push(mix(d.case.hash64(), history_hash(&d.recs)));
+        st.nontrivial.push(mix(d.case.shape_hash(), history_hash(&d.recs)));
     }
     st.sched_hashes.push(d.outcome.log_hash);
     let s = &d.outcome.stats;
